@@ -31,10 +31,11 @@ NumLex == [x \in DOMAIN IntLex \cup {"1.5", "2.5", "0.5", "3.5"} |->
 BoolLexTrue  == {"true", "1"}
 BoolLexFalse == {"false", "0"}
 
-\* the concatenation of a token sequence (TAB is materialised as a tab character; inside the model
+\* the concatenation of a token sequence (the token TAB is a tab character: one character for minLength /
+\* maxLength, and the value the handler must receive when it stays inside an item; inside the model
 \* it only matters that it is not a lexeme of any table)
 RECURSIVE Cat(_)
-Cat(toks) == IF toks = <<>> THEN "" ELSE Head(toks) \o Cat(Tail(toks))
+Cat(toks) == IF toks = <<>> THEN "" ELSE (IF Head(toks) = "TAB" THEN "\t" ELSE Head(toks)) \o Cat(Tail(toks))
 
 \* split a token sequence at separator token sep; pieces are token sequences
 RECURSIVE SplitAt(_, _, _)
